@@ -249,13 +249,25 @@ example : (pullN (eachCo .wrap (metaCo 0 [Val.int 1, Val.int 2, Val.int 3])) 2 (
 example : (pullN (enumerateCo (metaCo 0 [Val.int 1, Val.int 2, Val.int 3])) 2 ((0 : Nat), 0)).1 = ((2 : Nat), 2) :=
   lazy_bound_enumerate (metaCo 0 [Val.int 1, Val.int 2, Val.int 3]) 2 (0 : Nat) 0
 
-/-- **lazy_bound (step).** `step n` makes exactly `n` calls on its input per call (the value and the
-`n - 1` elements it steps over — the lookahead of `Step::next`), with exactly their events. -/
-theorem lazy_bound_step (n : Nat) (hn : n ≥ 1) (c : Co) (m : Nat) (s : c.σ) :
+/-- **lazy_bound (step), partial.** `step n` makes exactly `n` calls on its input per call (the value
+and the `n - 1` elements it steps over), with exactly their events: the lookahead of `Step::next` is
+bounded. Partial with respect to the property: the `n - 1` stepped-over elements are pulled *before*
+the next output is requested (`step_pulls_ahead`, finding F-C13-5). -/
+theorem lazy_bound_step_partial (n : Nat) (hn : n ≥ 1) (c : Co) (m : Nat) (s : c.σ) :
     pullN (stepCo n c) m s = pullN c (m * n) s := step_calls n hn c m s
 
 example : (pullN (stepCo 2 (metaCo 0 [Val.int 1, Val.int 2, Val.int 3, Val.int 4])) 1 (0 : Nat)).2
     = [Ev.pull 0 0, Ev.pull 0 1] := rfl
+
+/-- `Step` pulls ahead (finding F-C13-5; the model mirrors the code): the first call on `step 3`
+over a generator yields element 0 but has already asked the generator for elements 1 and 2, which
+no consumer has requested yet — `lazy_bound_step_partial` bounds the lookahead (`n - 1` elements), it does not
+remove it. The property's "only when consumed" asks for the lazy variant (skip before the next
+yield, requests/C13-fix-5.diff). -/
+theorem step_pulls_ahead (a b c d : Val) :
+    ((stepCo 3 (genCo 0 [a, b, c, d])).next (0, false)).out = some a ∧
+    ((stepCo 3 (genCo 0 [a, b, c, d])).next (0, false)).ev = [Ev.pull 0 0, Ev.pull 0 1, Ev.pull 0 2] :=
+  ⟨rfl, rfl⟩
 
 /-- laziness composes: `m` calls on `take k (each f c)` leave `c` where `min m k` calls leave it -/
 theorem lazy_bound_take_each (f : Fn) (c : Co) (m k : Nat) (s : c.σ) :
